@@ -383,6 +383,8 @@ Definition is_task_skip (st : lstep) : bool :=
   | _ => false
   end.
 
+Definition is_stage_err (st : lstep) : bool := match st with LCompleteStageErr _ => true | _ => false end.
+
 (* ------------------------------------------------------------------------------------------------ *)
 (* the store transaction scope (events/txn_scope.py + recorder/base.py:_record + store.transaction)  *)
 (* ------------------------------------------------------------------------------------------------ *)
